@@ -3,7 +3,9 @@
   * `RE`, Antimirov partial derivatives, a Bool matcher;
   * `specParse`: my reading of the documented content-expression grammar (sequence, `|`, `? * +`,
     `{n} {n,} {n,m}`, parentheses, groups expanded in schema order, inline/block mixing rule) — this
-    *is* the specification of "the expression read as a regular expression", kept small;
+    *is* the specification of "the expression read as a regular expression", kept small; a total
+    function (recursive descent with a recursion allowance that is never used up), proved to read
+    every expression as the model of the code's parser does (`Props/C06.lean: parse_agrees`);
   * `isBisim` / `equivCheck`: a checkable certificate that a compiled automaton (dumped from the
     running code) and an expression accept the same sequences and keep the same prefixes alive;
   * `explore`: (unverified) search producing such a certificate, and the spec-level dead-end test.
@@ -204,82 +206,113 @@ def tokenize (s : String) : List String :=
 def isWordTok (t : String) : Bool := !t.isEmpty && t.toList.all isWordChar
 def isNumTok (t : String) : Bool := !t.isEmpty && t.toList.all Char.isDigit
 
+/-- the parser state: the tokens left, and whether the names seen so far are inline (`none`: no name yet) -/
 structure PState where
   toks   : List String
   inline : Option Bool := none
 
-abbrev PM' := StateT PState (Except PErr)
+/-- the value of a decimal digit string -/
+def decimal (t : String) : Nat := t.toList.foldl (fun n c => 10 * n + (c.toNat - '0'.toNat)) 0
 
-def peek : PM' (Option String) := do return (← get).toks.head?
-def advance : PM' Unit := modify (fun s => { s with toks := s.toks.tail })
-def eat (t : String) : PM' Bool := do
-  if (← peek) == some t then advance; return true else return false
-
-def resolveName (table : List NameInfo) (name : String) : PM' RE := do
-  let byName := table.findIdx? (·.name == name)
-  let ids : List Nat := match byName with
+/-- a name: the node type of that name, else the members of the group of that name in schema order.  All the
+    types an expression names must be inline, or all block (`inl`: what the names before this one were). -/
+def sName (table : List NameInfo) (name : String) (inl : Option Bool) : Except PErr (RE × Option Bool) :=
+  let ids : List Nat := match table.findIdx? (·.name == name) with
     | some i => [i]
     | none => (List.range table.length).filter (fun i => (table[i]!).groups.contains name)
-  if ids.isEmpty then throw .unknownName
-  for i in ids do
-    let inl := (table[i]!).isInline
-    match (← get).inline with
-    | none => modify (fun s => { s with inline := some inl })
-    | some b => if b != inl then throw .mixed
-  return RE.alts (ids.map RE.sym)
+  let flags := ids.map (fun i => (table[i]!).isInline)
+  let first := inl.getD (flags.headD false)
+  if ids.isEmpty then .error .unknownName
+  else if flags.all (· == first) then .ok (RE.alts (ids.map RE.sym), some first)
+  else .error .mixed
+
+/-- the postfix operators after an atom, applied left to right: `+ * ?` and the counts `{n} {n,} {n,m}`
+    (plain decimal numbers) -/
+def sSuffix (r : RE) : List String → Except PErr (RE × List String)
+  | "+" :: ts => sSuffix (RE.plus r) ts
+  | "*" :: ts => sSuffix (RE.star r) ts
+  | "?" :: ts => sSuffix (RE.opt r) ts
+  | "{" :: n :: "}" :: ts =>
+    if isNumTok n then sSuffix (RE.range r (decimal n) (some (decimal n))) ts else .error .syntax
+  | "{" :: n :: "," :: "}" :: ts =>
+    if isNumTok n then sSuffix (RE.range r (decimal n) none) ts else .error .syntax
+  | "{" :: n :: "," :: m :: "}" :: ts =>
+    if isNumTok n && isNumTok m then sSuffix (RE.range r (decimal n) (some (decimal m))) ts else .error .syntax
+  | "{" :: _ => .error .syntax
+  | ts => .ok (r, ts)
+
+/-- what a grammar function returns: the expression read and the state after it, or the reason of the refusal;
+    `none`: the recursion allowance (first argument of the functions below, one unit per call) is used up —
+    never the case in `specParse` (`Props/C06.lean: specParse_allowance`) -/
+abbrev SRes := Option (Except PErr (RE × PState))
 
 mutual
-partial def parseExpr (table : List NameInfo) : PM' RE := do
-  let first ← parseSeq table
-  let mut acc := [first]
-  while (← eat "|") do
-    acc := acc ++ [← parseSeq table]
-  return RE.alts acc
-partial def parseSeq (table : List NameInfo) : PM' RE := do
-  let first ← parseSubscript table
-  let mut acc := [first]
-  repeat
-    match (← peek) with
-    | none => break
-    | some t => if t == ")" || t == "|" then break else acc := acc ++ [← parseSubscript table]
-  return RE.seqs acc
-partial def parseSubscript (table : List NameInfo) : PM' RE := do
-  let mut e ← parseAtom table
-  repeat
-    if (← eat "+") then e := RE.plus e
-    else if (← eat "*") then e := RE.star e
-    else if (← eat "?") then e := RE.opt e
-    else if (← eat "{") then
-      let n ← parseNum
-      let mut mx : Option Nat := some n
-      if (← eat ",") then
-        if (← peek) == some "}" then mx := none else mx := some (← parseNum)
-      if !(← eat "}") then throw .syntax
-      e := RE.range e n mx
-    else break
-  return e
-partial def parseNum : PM' Nat := do
-  match (← peek) with
-  | some t => if isNumTok t then advance; return t.toNat! else throw .syntax
-  | none => throw .syntax
-partial def parseAtom (table : List NameInfo) : PM' RE := do
-  if (← eat "(") then
-    let e ← parseExpr table
-    if !(← eat ")") then throw .syntax
-    return e
-  match (← peek) with
-  | some t => if isWordTok t then advance; resolveName table t else throw .syntax
-  | none => throw .syntax
+/-- `expr ::= seq ("|" seq)*` -/
+def sExpr (table : List NameInfo) : Nat → PState → SRes
+  | 0, _ => none
+  | k + 1, st =>
+    match sSeq table k st with
+    | some (.ok (r, st)) =>
+      match st.toks with
+      | "|" :: ts =>
+        match sExpr table k { st with toks := ts } with
+        | some (.ok (r', st)) => some (.ok (RE.alt r r', st))
+        | other => other
+      | _ => some (.ok (r, st))
+    | other => other
+/-- `seq ::= sub+`, up to a `)`, a `|` or the end -/
+def sSeq (table : List NameInfo) : Nat → PState → SRes
+  | 0, _ => none
+  | k + 1, st =>
+    match sSub table k st with
+    | some (.ok (r, st)) =>
+      if st.toks.isEmpty || st.toks.head? == some ")" || st.toks.head? == some "|" then some (.ok (r, st))
+      else
+        match sSeq table k st with
+        | some (.ok (r', st)) => some (.ok (RE.seq r r', st))
+        | other => other
+    | other => other
+/-- `sub ::= atom suffix*` -/
+def sSub (table : List NameInfo) : Nat → PState → SRes
+  | 0, _ => none
+  | k + 1, st =>
+    match sAtom table k st with
+    | some (.ok (r, st)) =>
+      match sSuffix r st.toks with
+      | .ok (r, ts) => some (.ok (r, { st with toks := ts }))
+      | .error e => some (.error e)
+    | other => other
+/-- `atom ::= "(" expr ")" | name` -/
+def sAtom (table : List NameInfo) : Nat → PState → SRes
+  | 0, _ => none
+  | k + 1, st =>
+    match st.toks with
+    | [] => some (.error .syntax)
+    | "(" :: ts =>
+      match sExpr table k { st with toks := ts } with
+      | some (.ok (r, st)) =>
+        match st.toks with
+        | ")" :: ts => some (.ok (r, { st with toks := ts }))
+        | _ => some (.error .syntax)
+      | other => other
+    | t :: ts =>
+      if isWordTok t then
+        match sName table t st.inline with
+        | .ok (r, inl) => some (.ok (r, { toks := ts, inline := inl }))
+        | .error e => some (.error e)
+      else some (.error .syntax)
 end
 
-/-- `ContentMatch.parse`: the empty expression is `eps`; trailing text is a syntax error -/
+/-- the content expression read as a regular expression: no token is `eps`; text after the expression is a syntax
+    error.  (The allowance `4 * #tokens + 4` is never used up.) -/
 def specParse (table : List NameInfo) (expr : String) : Except PErr RE :=
   let toks := tokenize expr
   if toks.isEmpty then .ok RE.eps
   else
-    match (parseExpr table).run { toks := toks } with
-    | .error e => .error e
-    | .ok (r, st) => if st.toks.isEmpty then .ok r else .error .syntax
+    match sExpr table (4 * toks.length + 4) { toks := toks } with
+    | some (.ok (r, st)) => if st.toks.isEmpty then .ok r else .error .syntax
+    | some (.error e) => .error e
+    | none => .error .syntax
 
 /-- shortest sequence (over `sigma`, length ≤ `maxLen`) on which automaton and expression disagree -/
 def distinguish (d : Dfa) (sigma : List Nat) (r : RE) (maxLen : Nat) : Option (List Nat × Bool × Bool) :=
